@@ -245,10 +245,22 @@ def run_shard(spec, rec):
         user = registries[ri]
         sigs = dict(BUILTIN_SIGS)
         sigs.update(user)
-        if (ri, b) not in envs:
+        how = R.choice(["class", "class", "instance"])
+        if (ri, b, how) not in envs:
             attrs = {} if b is None else {"min_int_index": b[0], "max_int_index": b[1]}
-            envs[(ri, b)] = mon.make_env({n_: (p, r, impl_for(r)) for n_, (p, r) in user.items()}, attrs=attrs)
-        env, probes = envs[(ri, b)]
+            if how == "class" or b is None:
+                envs[(ri, b, how)] = mon.make_env({n_: (p, r, impl_for(r)) for n_, (p, r) in user.items()}, attrs=attrs)
+            else:
+                # configured on the instance after construction (and after a first use with the default range)
+                e_, pr_ = mon.make_env({n_: (p, r, impl_for(r)) for n_, (p, r) in user.items()})
+                try:
+                    e_.compile("$[1, 2:3]")
+                except Exception:  # noqa: BLE001
+                    pass
+                e_.min_int_index, e_.max_int_index = b
+                envs[(ri, b, how)] = (e_, pr_)
+        env, probes = envs[(ri, b, how)]
+        rec.feat("bounds-configured-on:" + how)
         lo, hi = b if b else (-(2**53) + 1, 2**53 - 1)
         cfg = G.Cfg(filters=True, registry=sigs, regex_functions=True, max_depth=2, max_segments=2)
         near = [lo - 1, lo, lo + 1, hi - 1, hi, hi + 1, 0, 1, -1]
